@@ -279,6 +279,8 @@ func runC13(c *Ctx, r *Report) {
 	r.Doc("R-C13.8", "every CanAppendContext literal is built while the lock of the log stored in it is held and flows only into a call argument")
 	r.Doc("R-C13.10", "the codec objects that Join's parallel validators and Append share are of concurrency-safe types (adopted from C18)")
 	importRules(c, r, "C18", []string{"R-C18.7"}, "R-C13.10", 0)
+	r.Doc("R-C13.11", "no structure that holds a lock is copied (adopted from C14: a method on a copy locks the copy's lock and excludes nobody)")
+	importRules(c, r, "C14", []string{"R-C14.9"}, "R-C13.11")
 	r.Doc("R-C13.9", "lock-order graph between lock classes is acyclic; no write re-acquisition of a held lock")
 
 	r.Doc("control", "engine positive/negative controls analysed on every run")
